@@ -166,26 +166,23 @@ func (r *Router) handleHTTPRequest(ctx *Context) {
 		ctx.Set(CTXCurrentRoutePath, path)
 
 		// append main handler to last
-		handlers = append(route.handlers, route.handler)
+		// Notice: must build a new slice, the route.handlers is shared by all requests
+		handlers = combineHandlers(route.handlers, HandlersChain{route.handler})
 	} else if len(allowed) > 0 { // method not allowed
-		if len(r.noAllowed) == 0 {
-			r.noAllowed = HandlersChain{internal405Handler}
-		}
-
 		// add allowed methods to context
 		ctx.Set(CTXAllowedMethods, allowed)
-		handlers = r.noAllowed
-	} else { // not found route
-		if len(r.noRoute) == 0 {
-			r.noRoute = HandlersChain{internal404Handler}
+		if handlers = r.noAllowed; len(handlers) == 0 {
+			handlers = HandlersChain{internal405Handler}
 		}
-
-		handlers = r.noRoute
+	} else { // not found route
+		if handlers = r.noRoute; len(handlers) == 0 {
+			handlers = HandlersChain{internal404Handler}
+		}
 	}
 
 	// has global middleware handlers
 	if len(r.handlers) > 0 {
-		handlers = append(r.handlers, handlers...)
+		handlers = combineHandlers(r.handlers, handlers)
 	}
 
 	ctx.SetHandlers(handlers)
